@@ -561,14 +561,95 @@ func runC15(p *core.Prog, r *core.Report) {
 		rwList = append(rwList, fn)
 	}
 	sort.Slice(rwList, func(i, j int) bool { return rwList[i].String() < rwList[j].String() })
+	// sendCut: the points of fn behind which a status is known to be recorded — the `Status != 0` edges, a call of the
+	// wrapper's own WriteHeader, a store of a non-zero status
+	sendCut := func(fn *ssa.Function) sx.Cut {
+		cut := sx.Cut{Edges: map[sx.Edge]bool{}, Instrs: map[ssa.Instruction]bool{}}
+		for e := range statusZeroEdges(fn) {
+			other := sx.Edge{From: e.From, Idx: 1 - e.Idx}
+			cut.Edges[other] = true
+		}
+		sx.Instrs(fn, func(i2 ssa.Instruction) {
+			if cc, ok := i2.(*ssa.Call); ok {
+				if callee := sx.StaticCallee(cc); callee != nil && rwMethods[sx.OrigFunc(callee)] && callee.Name() == "WriteHeader" {
+					cut.Instrs[i2] = true
+				}
+				// the wrapped writer's own WriteHeader inside an expanded copy of the wrapper's WriteHeader
+				if cc.Call.IsInvoke() && cc.Call.Method.Name() == "WriteHeader" && sx.Origins(cc.Call.Value)["field:ResponseWriter.Origin"] {
+					cut.Instrs[i2] = true
+				}
+			}
+			// a status recorded in place (the forward-then-record pair is checked by the WriteHeader case)
+			if st, ok := i2.(*ssa.Store); ok {
+				if fa, ok := st.Addr.(*ssa.FieldAddr); ok && sx.FieldOf(fa) == status {
+					if k, isC := sx.ConstInt(st.Val); !isC || k != 0 {
+						cut.Instrs[i2] = true
+					}
+				}
+			}
+		})
+		return cut
+	}
 	for _, src := range rwList {
+		// a status is recorded only for a header that was handed to the wrapped writer: a non-zero Status without a
+		// forwarded WriteHeader of the same code suppresses the 500 of a later panic although nothing was sent
+		{
+			fn := p.Inl(src)
+			fwd := map[ssa.Instruction]ssa.Value{}
+			sx.Instrs(fn, func(in ssa.Instruction) {
+				if c, ok := in.(*ssa.Call); ok && c.Call.IsInvoke() && c.Call.Method.Name() == "WriteHeader" && sx.Origins(c.Call.Value)["field:ResponseWriter.Origin"] {
+					fwd[in] = c.Call.Args[0]
+				}
+			})
+			sx.Instrs(fn, func(in ssa.Instruction) {
+				st, ok := in.(*ssa.Store)
+				if !ok {
+					return
+				}
+				fa, ok := st.Addr.(*ssa.FieldAddr)
+				if !ok || sx.FieldOf(fa) != status {
+					return
+				}
+				if k, isC := sx.ConstInt(st.Val); isC && k == 0 {
+					return
+				}
+				cutF := sx.Cut{Instrs: map[ssa.Instruction]bool{}}
+				for f, code := range fwd {
+					if sameVal(code, st.Val) {
+						cutF.Instrs[f] = true
+					}
+				}
+				okSt := len(cutF.Instrs) > 0 && sx.MustPass(fn, nil, in, cutF)
+				r.Check(okSt, "C15-R6", fnName(fn)+": a status is recorded only after the same code was forwarded", p.Pos(in.Pos()), "Status = code behind Origin.WriteHeader(code) (the wrapped writer panics on an invalid code without sending anything)", "Status is set to "+short(sx.ValPath(st.Val))+" on a path where that code was not handed to the wrapped writer's WriteHeader: Status is non-zero although nothing may have been sent — a later panic is answered with nothing instead of 500, or REQ_END reports a status the client never received")
+			})
+		}
 		fn := p.Inl(src) // Write's implicit WriteHeader(200) is seen in place, whether it is a call or written out
 		sx.Instrs(fn, func(in ssa.Instruction) {
 			c, ok := in.(*ssa.Call)
-			if !ok || !c.Call.IsInvoke() || !sx.Origins(c.Call.Value)["field:ResponseWriter.Origin"] {
+			if !ok {
+				return
+			}
+			if !c.Call.IsInvoke() || !sx.Origins(c.Call.Value)["field:ResponseWriter.Origin"] {
+				// the wrapped writer handed to someone else (io.Copy(w.Origin, src), io.WriteString, …): that callee writes
+				viaArg := false
+				for _, a := range c.Call.Args {
+					if sx.Origins(a)["field:ResponseWriter.Origin"] {
+						viaArg = true
+					}
+				}
+				if _, isB := c.Call.Value.(*ssa.Builtin); isB || !viaArg {
+					return
+				}
+				r.Check(sx.MustPass(fn, nil, in, sendCut(fn)), "C15-R6", fnName(fn)+": status is recorded before the wrapped writer is handed to "+short(sx.CalleeName(c)), p.Pos(in.Pos()), "reached only after a status was recorded (explicitly or the implicit 200)", "the wrapped writer is handed to "+short(sx.CalleeName(c))+" on a path where no status was recorded: whatever that call sends commits the header (200) but Status stays 0 — a later panic answers 500 on top of a started 200 response and REQ_END reports a status the client never saw")
 				return
 			}
 			switch c.Call.Method.Name() {
+			case "Header":
+				// reading or preparing headers sends nothing
+			default:
+				// any other method of the wrapped writer (or of an interface it was asserted to: Flush, ReadFrom, Push, …)
+				// can commit the response header
+				r.Check(sx.MustPass(fn, nil, in, sendCut(fn)), "C15-R6", fnName(fn)+": status is recorded before "+c.Call.Method.Name()+" is forwarded", p.Pos(in.Pos()), "forwarded only after a status was recorded (explicitly or the implicit 200)", "the wrapped writer's "+c.Call.Method.Name()+" is called on a path where no status was recorded: it sends the header (implicit 200) but Status stays 0 — a later panic answers 500 on top of a started 200 response and REQ_END reports a status the client never saw")
 			case "WriteHeader":
 				// every return after the forward passes a store Status = code
 				cut := sx.Cut{Instrs: map[ssa.Instruction]bool{}}
@@ -579,41 +660,21 @@ func runC15(p *core.Prog, r *core.Report) {
 						}
 					}
 				})
+				// (the stores that belong to this forward: a method may forward in several branches)
+				for st := range cut.Instrs {
+					if !sx.ReachInstr(fn, c, st, sx.Cut{}) {
+						delete(cut.Instrs, st)
+					}
+				}
 				okAll := len(cut.Instrs) > 0
 				for _, ret := range sx.Returns(fn) {
 					if sx.ReachInstr(fn, c, ret, cut) && !sx.MustPass(fn, nil, c, cut) {
 						okAll = false
 					}
 				}
-				// and only after the wrapped writer accepted it (it panics on an invalid code without sending anything)
-				for st := range cut.Instrs {
-					if !sx.MustPass(fn, nil, st, sx.Cut{Instrs: map[ssa.Instruction]bool{c: true}}) {
-						okAll = false
-					}
-				}
 				r.Check(okAll, "C15-R6", fnName(fn)+": forwarded status is recorded", p.Pos(in.Pos()), "Status = code after the wrapped writer accepted the header, on every path", "the status is not recorded on every path after forwarding WriteHeader — or is recorded before forwarding: net/http panics on an invalid code without sending anything, Status is then non-zero although nothing was sent and the 500 is suppressed")
 			case "Write":
-				cut := sx.Cut{Edges: map[sx.Edge]bool{}, Instrs: map[ssa.Instruction]bool{}}
-				// Status != 0 edges
-				for e := range statusZeroEdges(fn) {
-					other := sx.Edge{From: e.From, Idx: 1 - e.Idx}
-					cut.Edges[other] = true
-				}
-				sx.Instrs(fn, func(i2 ssa.Instruction) {
-					if cc, ok := i2.(*ssa.Call); ok {
-						if callee := sx.StaticCallee(cc); callee != nil && rwMethods[sx.OrigFunc(callee)] && callee.Name() == "WriteHeader" {
-							cut.Instrs[i2] = true
-						}
-					}
-					// a status recorded in place (the forward-then-record pair is checked by the WriteHeader case above)
-					if st, ok := i2.(*ssa.Store); ok {
-						if fa, ok := st.Addr.(*ssa.FieldAddr); ok && sx.FieldOf(fa) == status {
-							if k, isC := sx.ConstInt(st.Val); !isC || k != 0 {
-								cut.Instrs[i2] = true
-							}
-						}
-					}
-				})
+				cut := sendCut(fn)
 				r.Check(sx.MustPass(fn, nil, in, cut), "C15-R6", fnName(fn)+": implicit 200 is recorded before the body is forwarded", p.Pos(in.Pos()), "the body is forwarded only after a status was recorded (explicitly or the implicit 200)", "the body is forwarded on a path where no status was recorded: the wire status is 200 but Status stays 0 and a later panic sends a second header")
 			}
 		})
